@@ -508,6 +508,24 @@ func ExtendVoucher[T protocol.PublicKeyOrChain](v *Voucher, owner crypto.Signer,
 		return nil, fmt.Errorf("error marshaling next owner public key: %w", err)
 	}
 
+	// Next owner key must also match the type and size/curve of the manufacturer key
+	nextOwnerPub, err := nextOwnerPublicKey.Public()
+	if err != nil {
+		return nil, fmt.Errorf("error parsing next owner public key: %w", err)
+	}
+	switch nextPub := nextOwnerPub.(type) {
+	case *ecdsa.PublicKey:
+		if ownerPub, ok := ownerPubKey.(*ecdsa.PublicKey); !ok || ownerPub.Curve != nextPub.Curve {
+			return nil, fmt.Errorf("next owner key for voucher extension did not match the type and size/curve of the manufacturer key")
+		}
+	case *rsa.PublicKey:
+		if ownerPub, ok := ownerPubKey.(*rsa.PublicKey); !ok || ownerPub.Size() != nextPub.Size() {
+			return nil, fmt.Errorf("next owner key for voucher extension did not match the type and size/curve of the manufacturer key")
+		}
+	default:
+		return nil, fmt.Errorf("unsupported next owner key type: %T", nextPub)
+	}
+
 	// Select the appropriate hash algorithm
 	devicePubKey := (*v.CertChain)[0].PublicKey
 	alg, err := hashAlgFor(devicePubKey, ownerPubKey)
